@@ -295,7 +295,8 @@ def handle(run, results, build, what='entries differ from the oracle', signature
             # it on the real (compiled, float) build; otherwise it is a harness error (exit 2), never a VIOLATION line
             hook = getattr(importlib.import_module(build.__module__), 'real_exception', None)
             real = None
-            if hook is not None and '/repo/compmech/' in res['error']:
+            from .harness import REPO
+            if hook is not None and (REPO.rstrip('/') + '/compmech/') in res['error']:
                 try:
                     real = hook(res['cfg'])
                 except Exception as e:
